@@ -163,9 +163,39 @@ func (vc *VC) assumeFrame(s *State, name string) {
 }
 
 // allocRef returns a fresh non-nil reference.
-func (vc *VC) allocRef(s *State, hint string) *Term {
+// rtype: dynamic type tag of a reference (references of different Go types share one integer space).
+var typeIDs = map[string]int64{}
+
+func typeID(t types.Type) *Term {
+	k := typeKey(t)
+	id, ok := typeIDs[k]
+	if !ok {
+		id = int64(len(typeIDs) + 1)
+		typeIDs[k] = id
+	}
+	return IntLit(id)
+}
+
+func rtypeOf(r *Term) *Term { return App("rtype", SInt, r) }
+
+// refTyped: a non-nil reference of static type t (pointer, map, chan) carries the tag of what it points to.
+func refTyped(t types.Type, v *Term) *Term {
+	switch u := t.Underlying().(type) {
+	case *types.Pointer:
+		return Implies(Not(Eq(v, IntLit(0))), Eq(rtypeOf(v), typeID(u.Elem())))
+	case *types.Map:
+		return Implies(Not(Eq(v, IntLit(0))), Eq(rtypeOf(v), typeID(t.Underlying())))
+	}
+	return True
+}
+
+func (vc *VC) allocRef(s *State, hint string, tag *Term) *Term {
 	r := Fresh("ref."+hint, SInt)
-	s.assume(And(Gt(r, IntLit(0)), Ge(r, s.alloc)))
+	s.assume(Eq(r, s.alloc)) // bump allocation: no unexplained gap between allocated objects
+	s.assume(Gt(r, IntLit(0)))
+	if tag != nil {
+		s.assume(Eq(rtypeOf(r), tag))
+	}
 	na := Fresh("alloc", SInt)
 	s.assume(Eq(na, Add(r, IntLit(1))))
 	s.alloc = na
@@ -174,7 +204,7 @@ func (vc *VC) allocRef(s *State, hint string) *Term {
 
 // newObject allocates *T initialised with value v.
 func (vc *VC) newObject(s *State, t types.Type, v *Term) *Term {
-	r := vc.allocRef(s, typeKey(t))
+	r := vc.allocRef(s, typeKey(t), typeID(t))
 	vc.storePtr(s, t, r, v)
 	return r
 }
@@ -242,7 +272,7 @@ func (vc *VC) mapDelete(s *State, mt *types.Map, m, k *Term) {
 }
 
 func (vc *VC) mapMake(s *State, mt *types.Map) *Term {
-	r := vc.allocRef(s, "map")
+	r := vc.allocRef(s, "map", typeID(mt))
 	a := vc.mapArrs(s, mt)
 	nd := Fresh(a.domName, a.dom.Sort)
 	s.assume(Eq(nd, Store(a.dom, r, ConstArr(ArraySort(a.ks, SBool), False))))
@@ -351,7 +381,7 @@ func (vc *VC) rootFact(name string, arr *Term, alloc *Term) *Term {
 	}
 	switch u := t.Underlying().(type) {
 	case *types.Pointer, *types.Map, *types.Chan:
-		body = And(Le(IntLit(0), cell), Lt(cell, alloc))
+		body = And(Le(IntLit(0), cell), Lt(cell, alloc), refTyped(t, cell))
 		pat = cell
 	case *types.Slice:
 		if !isRefType(u.Elem()) {
@@ -360,7 +390,7 @@ func (vc *VC) rootFact(name string, arr *Term, alloc *Term) *Term {
 		i := BoundVar("hi", SInt)
 		vars = append(vars, i)
 		el := Select(sliceElems(cell), i)
-		body = And(Le(IntLit(0), el), Lt(el, alloc))
+		body = And(Le(IntLit(0), el), Lt(el, alloc), refTyped(u.Elem(), el))
 		pat = el
 	case *types.Array:
 		if !isRefType(u.Elem()) {
@@ -369,7 +399,7 @@ func (vc *VC) rootFact(name string, arr *Term, alloc *Term) *Term {
 		i := BoundVar("hi", SInt)
 		vars = append(vars, i)
 		el := Select(cell, i)
-		body = And(Le(IntLit(0), el), Lt(el, alloc))
+		body = And(Le(IntLit(0), el), Lt(el, alloc), refTyped(u.Elem(), el))
 		pat = el
 	default:
 		return True
